@@ -22,5 +22,6 @@ def run(ctx):
     for cfg, prog in ctx.programs().items():
         guards.g4_projective_add(ctx, cfg, prog)
         guards.g5_conversions(ctx, cfg, prog)
+        guards.g8_equality(ctx, cfg, prog)
         m = formulas.rule_curve(ctx, cfg, prog)
         ctx.floor('R-POLY curve formulas[%s]' % cfg, m, 12)
